@@ -50,7 +50,11 @@ func runSeeds(t *testing.T, property, check string, st *Stats) {
 		c.Property = property
 		replayPrefix(c.Prefix)
 		st.Class("regression_cases")
-		if msg := safeRun(fn, c, st); msg != "" {
+		c.Check = check
+		enterCase(c) // the hang detector watches the regression cases as well
+		msg := safeRun(fn, c, st)
+		leaveCase()
+		if msg != "" {
 			Fail(t, c, "regression case: %s", msg)
 		}
 	}
